@@ -197,6 +197,19 @@ def hostile(kind, k, world, pa):
         else:
             raw = hb + body
         return raw
+    if kind == 'empty_sealed':
+        # a well-formed header of any type that announces an empty message area, followed by 16 arbitrary bytes where the
+        # AEAD tag would be (the shape of a keep-alive): forged, so the tag is wrong - emptiness of the payload is no excuse
+        h = PacketHeader()
+        h.isServer = False
+        h.ctime = symint('e%d_ctime' % k, 0, 2 ** 32 - 1)
+        h.pkt_type = getattr(PacketType, TYPES[choose(8, 'e%d_type' % k)])
+        h.seq = SeqNum(symint('e%d_seq' % k, 0, 65535))
+        h.ack = SeqNum(symint('e%d_ack' % k, 0, 65535))
+        h.ack_bits = symint('e%d_ack_bits' % k, 0, 2 ** 32 - 1)
+        h.length = 0
+        h.count = 0
+        return h.to_bytes() + rope.blob('e%d_tag' % k, 16, 16)[0]
     if kind == 'tiny_hello':
         # CLIENT_HELLO typed datagram whose message is 3 arbitrary bytes
         h = PacketHeader.create(False, 1000, PacketType.CLIENT_HELLO, SeqNum(symint('t%d_seq' % k, 1, 65535)), SeqNum(0), 0)
@@ -240,7 +253,7 @@ def l112(a_state, quick):
         if a_state == 'connected' and tick in (2, 3, 4):
             loop_reply(world, pa)
         if tick == 5:
-            kinds = ['forged_header', 'tiny_hello', 'oversized', 'truncated_genuine']
+            kinds = ['forged_header', 'tiny_hello', 'oversized', 'truncated_genuine', 'empty_sealed']
             kind = kinds[choose(len(kinds), 'hostile_kind')]
             sb = world.ctxt.connections.get(B)
             if sb is not None:
@@ -299,7 +312,7 @@ R.add('L11.2', l112, lambda tier: [dict(a_state=s, quick=(tier == 'quick' or s =
               'the established client is still served: its message is delivered',
               'key, status, token and fragments of the other client are untouched by hostile datagrams from elsewhere'],
       bounds='one (thorough two) hostile datagram(s): forged header of any type with valid CRC and <= 5 arbitrary body bytes | CLIENT_HELLO '
-             'with a 3-byte arbitrary message | oversized | truncated copy of a genuine datagram', path_cap=400000)
+             'with a 3-byte arbitrary message | oversized | truncated copy of a genuine datagram | header announcing an empty message area + 16 arbitrary tag bytes', path_cap=400000)
 
 
 # ------------------------------------------------------------------ L11.4 anti-amplification
